@@ -30,7 +30,9 @@ PROPS = {
         "claim": "PARTIAL proof + repeated-run check. In the model every map iteration / arrival order is the order of a list; proved for all inputs: C06_sort_oracle_irrelevant and "
                  "C06_sorted_fold_oracle_irrelevant (sorting with a total antisymmetric comparator removes the enumeration order: the dict.SortedKeys / compare.Sort sites), C06_sum_oracle_irrelevant "
                  "and C06_comm_fold_oracle_irrelevant (commutative folds: Amounts.Add, SumBy, Totals, journal period), C06_report_cells_deterministic, C06_journal_deterministic (any two arrival "
-                 "orders of the directives give the same days, per-day contents up to order, and period). Not provable in this model: absence of further order leaks in the Go code, float "
+                 "orders of the directives give the same days, per-day contents up to order, and period); Properties/C06Report.lean: table_perm (the rendered report is a function of the MULTISET of report inserts, for inserts "
+                 "whose accounts start with an account type — without that proviso two non-type top-level names tie in the level-1 comparator, kernel-checked witness table_perm_needs_wf), rows_order_perm, "
+                 "eraseDups_perm. Not provable in this model: absence of further order leaks in the Go code, float "
                  "summation order in portfolio/infer. Decided on every run: each of balance, print, check --write, transcode, portfolio weights, infer and import revolut2 is run 8 (thorough: 30) "
                  "times on tie-rich inputs with different schedule-perturbation seeds and GOMAXPROCS 1/2/16 (Go randomises map iteration per run); stdout bytes and exit status must be identical.",
         "note": "Trusted: Lean kernel; axioms propext, Classical.choice, Quot.sound. Go map order and goroutine schedules can be sampled, not enumerated. A genuine defect found by this check "
@@ -46,7 +48,10 @@ PROPS = {
                  "exactly the directives of its date, per kind, in input order), C05_same_dates, C05_same_day_content (per day and kind the contents are permutations of each other), "
                  "C05_journal_period_perm (the window-clipping journal period is order-independent), C05_cells_perm (every report cell is invariant under permutation of the report inserts). "
                  "Properties/C05Verdict.lean: verdict_perm / C05_verdict_perm (the checker's accept/reject verdict is the same for every permutation of the directives; only the NAMED offender may "
-                 "differ, witness C05_offender_may_differ), C05_days_equiv. Not mechanised: invariance of the SET of report inserts of the balance pipeline under reordering within a day. Decided on every run: each journal is written in several directive orders and include-tree "
+                 "differ, witness C05_offender_may_differ), C05_days_equiv; Properties/C05Inserts.lean: C05_inserts_perm (unvalued pipeline, closing on or off: the report inserts of two day-equivalent journals are "
+                 "permutations of each other; equality fails, kernel-checked witness), C05_run_ok_perm, C05_report_perm and C05_balance_output_perm (for every permutation of the directives of a journal with well-formed "
+                 "accounts BalanceCmd.run f ds = BalanceCmd.run f ds' — period, partition, closing days, pipeline, table, text or CSV bytes, failure included). Not mechanised: the valued report (adjustment order, same-day prices). "
+                 "Decided on every run as well: each journal is written in several directive orders and include-tree "
                  "layouts (1-5 files, depth <= 3, ./ and ../ paths, sub-directories), loaded by the REAL concurrent loader under different schedule-perturbation seeds (-tags verif), and check "
                  "verdict, balance output (byte for byte) and print output (same directives per date, identical transaction sequence) are compared across all variants and with the model run on the "
                  "permuted list.",
@@ -162,7 +167,7 @@ PROPS = {
         "note": "Trusted: Lean kernel; axioms propext, Classical.choice, Quot.sound; the unicode tables are regenerated from the Go toolchain on every run "
                 "(Generated/Unicode.lean); utf8.DecodeRuneInString is modelled (Utf8.decodeRune) and compared on its own stream. Not modelled: Go stack/heap "
                 "limits, the partially filled tree Go returns next to an error, the Callback hook, ParseFileRecursively (C14/C19).",
-        "rule": "streams: utf8 (all first bytes x continuation patterns + random byte strings, DecodeRuneInString vs Utf8.decodeAll); corpus (the repository's .knut "
+        "rule": "streams: utf8 (all first bytes x continuation patterns + random byte strings, DecodeRuneInString vs Utf8.decodeAll); scan (random scripts of calls of the exported scanner.Scanner API - Advance, ReadWhile, ReadWhile1, ReadUntil, ReadCharacter, ReadCharacterWith, ReadString, ReadAlternative, ReadN - on short texts, result ranges, offset, current rune and rendered errors compared call by call); corpus (the repository's .knut "
                 "files, their prefixes and one-position mutations; thorough: every prefix and every position); journal (grammar-based mostly valid journals: "
                 "all directive kinds, addons in both orders, multi-line assertions, CRLF, tabs, trailing blanks, Unicode letters/digits, multi-line descriptions, "
                 "missing final newline); mutated (1-3 byte-level edits of such journals: delete/duplicate/replace/insert/splice/truncate); prefixes (every prefix of "
